@@ -25,6 +25,8 @@ def exe():
 
 def main():
     env = dict(os.environ, CARGO_NET_OFFLINE="true", VERIF_DIR=VERIF)
+    # the nightly/sanitizer build keeps its own target directory (harness/fuzz/target)
+    env.pop("CARGO_TARGET_DIR", None)
     if len(sys.argv) > 2 and sys.argv[1] == "replay":
         ok, tail = build(env)
         if not ok:
